@@ -533,10 +533,12 @@ class WebSocketResponse(StreamResponse, Generic[_DecodeText]):
                     await writer.drain()
         except asyncio.CancelledError:
             self._set_code_close_transport(WSCloseCode.ABNORMAL_CLOSURE)
+            self._wake_receive()
             raise
         except Exception as exc:
             self._exception = exc
             self._set_code_close_transport(WSCloseCode.ABNORMAL_CLOSURE)
+            self._wake_receive()
             return True
 
         reader = self._reader
@@ -572,6 +574,15 @@ class WebSocketResponse(StreamResponse, Generic[_DecodeText]):
             self._exception = exc
             self._set_code_close_transport(WSCloseCode.ABNORMAL_CLOSURE)
             return True
+
+    def _wake_receive(self) -> None:
+        """Let a receive() blocked in another task see that the session is over.
+
+        Closing the transport does not do it while unsent data is pending:
+        connection_lost() only follows once the peer has taken that data.
+        """
+        if self._waiting and not self._closing and self._reader is not None:
+            self._reader.feed_data(WS_CLOSING_MESSAGE)
 
     def _set_closing(self, code: int) -> None:
         """Set the close code and mark the connection as closing."""
